@@ -75,7 +75,7 @@ func rulesC11(c *Ctx) {
 				c.Check(uses > 0, name+":session-used", f, as, "the looked-up session is used")
 			}
 		}
-		c.Pin("uses of looked-up sessions", n, 5)
+		c.MustPin("uses of looked-up sessions", n, 5, "a request path no longer takes its session from lookupSession (which checks existence and the user binding)")
 		ls := c.Fn(pM, "StreamableHTTPHandler", "lookupSession")
 		g := ls.Graph()
 		userID := c.Field(pM, "sessionInfo", "userID")
@@ -355,7 +355,7 @@ func rulesC11(c *Ctx) {
 				c.Check(ok, "startPOST-paired:"+f.Name()+"#"+itoa(n), f, call, "startPOST() is immediately followed by defer endPOST() on the same session: the count is released on every exit, including panics")
 			}
 		}
-		c.Pin("startPOST sites", n, 2)
+		c.MustPin("startPOST sites", n, 2, "a POST path no longer holds the session against its idle timer (startPOST/endPOST)")
 		refs, timer := c.Field(pM, "sessionInfo", "refs"), c.Field(pM, "sessionInfo", "timer")
 		k := c.guardedFields("timer-state", []*types.Var{refs, timer}, "sessionInfo.timerMu", func(f *Func, sel *ast.SelectorExpr) string {
 			if f.Name() == "(*StreamableHTTPHandler).serveStatefulPOST" && f.baseIsLocalAlloc(sel) {
